@@ -164,6 +164,27 @@ example :
   have := C10_interrupt_not_swallowed {} true (.get (.bytes [107])) _ _ he rfl
   exact ⟨this.2.1, this.2.2⟩
 
+/-- the administrative operations are inside the one-call theorems.  `shutdown` swallows `MemcacheUnexpectedCloseError`
+and nothing else: a `KeyboardInterrupt` inside `recv()` propagates and the socket is closed (`C10_interrupt_closes_socket`);
+`stats` / `cache_memlimit` with `ignore_exc`, interrupted in the middle of the reply: the interrupt is not turned into
+`{}` / `True` (`C10_interrupt_not_swallowed`). -/
+example :
+    (Client.call {} false true (.shutdown true) { evs := [.err 100] }).res = .error (.sock 100) ∧
+    (Client.call {} false true (.shutdown true) { evs := [.err 100] }).sockOpen = false ∧
+    (Client.call {} true true (.stats []) { evs := [.data [83, 84, 65], .err 101] }).res = .error (.sock 101) ∧
+    (Client.call {} true true (.stats []) { evs := [.data [83, 84, 65], .err 101] }).sockOpen = false ∧
+    (Client.call {} true true (.cacheMemlimit (.int 64)) { evs := [.data [79], .err 102] }).res = .error (.sock 102) ∧
+    (Client.call {} true true (.cacheMemlimit (.int 64)) { evs := [.data [79], .err 102] }).sockOpen = false := by
+  have h1 : (Client.call {} false true (.shutdown true) { evs := [.err 100] }).res = .error (.sock 100) := by
+    with_unfolding_all rfl
+  have h2 : (Client.call {} false true (.stats []) { evs := [.data [83, 84, 65], .err 101] }).res
+      = .error (.sock 101) := by with_unfolding_all rfl
+  have h3 : (Client.call {} false true (.cacheMemlimit (.int 64)) { evs := [.data [79], .err 102] }).res
+      = .error (.sock 102) := by with_unfolding_all rfl
+  have t2 := C10_interrupt_not_swallowed {} true (.stats []) _ _ h2 rfl
+  have t3 := C10_interrupt_not_swallowed {} true (.cacheMemlimit (.int 64)) _ _ h3 rfl
+  exact ⟨h1, C10_interrupt_closes_socket {} false true (.shutdown true) _ _ h1 rfl, t2.2.1, t2.2.2, t3.2.1, t3.2.2⟩
+
 /-! ## the pool -/
 
 /-- **C10** (the pool slot is not lost, any number of threads).  Let any number of threads run any programs of
